@@ -31,12 +31,24 @@ Local Open Scope R_scope.
         newton_monotone_*             convex increasing f from the right of the root: no panic,
                                       monotone iterates, Ok within an explicit number of passes,
                                       0 <= x - r <= tol / f'(r)  (both halves, global basin).
-   Still not proved: float rounding (tie); basins for systems of dimension > 1 beyond affine maps.
+   D. further variants and the sharpness of the hypotheses:
+        newton_sqrt_converges         x^2 - c from ANY x0 > 0: Ok as soon as (max_iter - 1) tol > (x0 + c/x0)/2 - sqrt c
+                                      (completes newton_sqrt: first half of the sentence, basin = half line);
+        newton_scalar_affine_exact / newton_affine_exact_C
+                                      the scalar solve on a z + b over any field, and Newton<Cmplx>::solve;
+        newton_sys1d_ok_near_root / newton_sys1d_basin_no_panic / newton_sys1d_basin_ok
+                                      the finite-difference SYSTEM solve (func, norm_inf, Mat64::jacobian,
+                                      solve_basic, vector update) on a nonlinear 1 x 1 system, both halves;
+        newton_sys_affine_one_pass    2 <= max_iter is sharp: one pass already yields the exact root but reports
+                                      it as Err unless the guess had a small residual;
+        newton_sys_empty_panics / newton_sysjac_empty_panics
+                                      1 <= rows M is sharp: a 0-dimensional system panics (norm_inf reads vec[0]).
+   Still not proved: float rounding (tie); basins for nonlinear systems of dimension > 1; nonlinear complex functions.
    ====================================================================================== *)
 From Coq Require Import Lia.
 From OV Require Import Proofs.SolveBase Proofs.Solve Proofs.SolveQc Proofs.Newton2Sys Proofs.Newton2Real
-  Proofs.Newton2Scalar Proofs.Newton2Mono Proofs.Newton2Wit.
-From OV Require Proofs.SolveC Proofs.Newton2Inst.
+  Proofs.Newton2Scalar Proofs.Newton2Mono Proofs.Newton2Sqrt Proofs.Newton2Sys1d Proofs.Newton2Wit.
+From OV Require Proofs.SolveC Proofs.Newton2Inst Proofs.Newton2Cplx.
 Local Close Scope R_scope.
 Local Open Scope nat_scope.
 
@@ -512,7 +524,191 @@ Proof.
   split; [exact cube2_convex|]. split; [exact cube2_pos_at_root|].
   unfold cube2'. replace (INR 20) with 20 by (cbn; ring). lra.
 Qed.
+
+(* ---------------- D. further variants; sharpness ---------------- *)
+(* x^2 - c: from any positive start the answer IS Ok (and then within tol of sqrt c) once max_iter is large enough *)
+Theorem newton_sqrt_converges : forall (c tl dl : R), 0 < c -> dl <> 0 ->
+  forall (n : nat) (x0 : R), 0 < x0 ->
+  (x0 + c / x0) / 2 - R_sqrt.sqrt c < INR (n - 1) * tl ->
+  exists x evs, newton_scalar NRl (mkCfg tl dl n x0) (fun x => Ok (x * x - c)) = Ok (NOk x, evs) /\
+    Rabs (x - R_sqrt.sqrt c) <= tl.
+Proof. exact newton_sqrt_converges_lemma. Qed.
+Check newton_sqrt_converges : forall (c tl dl : R), 0 < c -> dl <> 0 ->
+  forall (n : nat) (x0 : R), 0 < x0 ->
+  (x0 + c / x0) / 2 - R_sqrt.sqrt c < INR (n - 1) * tl ->
+  exists x evs, newton_scalar NRl (mkCfg tl dl n x0) (fun x => Ok (x * x - c)) = Ok (NOk x, evs) /\
+    Rabs (x - R_sqrt.sqrt c) <= tl.
+Print Assumptions newton_sqrt_converges.
+
+(* c = 4 from x0 = 1 (first iterate 5/2), tol = 1/2, three passes allowed *)
+Example newton_sqrt_converges_nonvacuous :
+  0 < 4 /\ 1 <> 0 /\ 0 < 1 /\ (1 + 4 / 1) / 2 - R_sqrt.sqrt 4 < INR (3 - 1) * (1 / 2).
+Proof.
+  replace 4 with (2 * 2) at 3 by ring. rewrite sqrt_square by lra. cbn [INR Nat.sub]. lra.
+Qed.
+
+(* the finite-difference system solve on a nonlinear 1 x 1 system p = [x] |-> [f x]:
+   Ok => close (y is the iterate at which the pass that answered started) *)
+Theorem newton_sys1d_ok_near_root : forall (f f' : R -> R) (a b m Mb L r : R),
+  (forall c, a <= c <= b -> derivable_pt_lim f c (f' c)) -> 0 < m -> 0 <= L ->
+  (forall c, a <= c <= b -> m <= Rabs (f' c)) -> (forall c, a <= c <= b -> Rabs (f' c) <= Mb) ->
+  (forall u v, a <= u <= b -> a <= v <= b -> Rabs (f' u - f' v) <= L * Rabs (u - v)) ->
+  a <= r <= b -> f r = 0 ->
+  forall (tl dl : R) (n : nat) (x0 : R) (p : list R) evs,
+  newton_sys NRl (mkCfg tl dl n [x0]) (fun p => let* x := rd p 0 in Ok [f x]) = Ok (NOk p, evs) ->
+  exists x y k, (k < n)%nat /\ p = [x] /\
+    niter (sys_step NRl tl dl (fun p => let* x := rd p 0 in Ok [f x])) k [x0] = Ok [y] /\
+    (a <= y - Rabs dl -> y + Rabs dl <= b ->
+     Rabs (y - r) <= tl / m /\ Rabs (x - r) <= L / m * (tl / m * (tl / m + Rabs dl))).
+Proof. exact newton_sys1d_ok_near_root_lemma. Qed.
+Check newton_sys1d_ok_near_root : forall (f f' : R -> R) (a b m Mb L r : R),
+  (forall c, a <= c <= b -> derivable_pt_lim f c (f' c)) -> 0 < m -> 0 <= L ->
+  (forall c, a <= c <= b -> m <= Rabs (f' c)) -> (forall c, a <= c <= b -> Rabs (f' c) <= Mb) ->
+  (forall u v, a <= u <= b -> a <= v <= b -> Rabs (f' u - f' v) <= L * Rabs (u - v)) ->
+  a <= r <= b -> f r = 0 ->
+  forall (tl dl : R) (n : nat) (x0 : R) (p : list R) evs,
+  newton_sys NRl (mkCfg tl dl n [x0]) (fun p => let* x := rd p 0 in Ok [f x]) = Ok (NOk p, evs) ->
+  exists x y k, (k < n)%nat /\ p = [x] /\
+    niter (sys_step NRl tl dl (fun p => let* x := rd p 0 in Ok [f x])) k [x0] = Ok [y] /\
+    (a <= y - Rabs dl -> y + Rabs dl <= b ->
+     Rabs (y - r) <= tl / m /\ Rabs (x - r) <= L / m * (tl / m * (tl / m + Rabs dl))).
+Print Assumptions newton_sys1d_ok_near_root.
+
+Theorem newton_sys1d_basin_no_panic : forall (f f' : R -> R) (a b m Mb L r : R),
+  (forall c, a <= c <= b -> derivable_pt_lim f c (f' c)) -> 0 < m -> 0 <= L ->
+  (forall c, a <= c <= b -> m <= Rabs (f' c)) -> (forall c, a <= c <= b -> Rabs (f' c) <= Mb) ->
+  (forall u v, a <= u <= b -> a <= v <= b -> Rabs (f' u - f' v) <= L * Rabs (u - v)) ->
+  a <= r <= b -> f r = 0 ->
+  forall rho tl dl : R, 0 <= rho -> dl <> 0 -> a <= r - rho - Rabs dl -> r + rho + Rabs dl <= b ->
+  L / m * (rho + Rabs dl) < 1 ->
+  forall (n : nat) (x0 : R), Rabs (x0 - r) <= rho ->
+  exists res evs, newton_sys NRl (mkCfg tl dl n [x0]) (fun p => let* x := rd p 0 in Ok [f x]) = Ok (res, evs).
+Proof. exact newton_sys1d_basin_total_lemma. Qed.
+Check newton_sys1d_basin_no_panic : forall (f f' : R -> R) (a b m Mb L r : R),
+  (forall c, a <= c <= b -> derivable_pt_lim f c (f' c)) -> 0 < m -> 0 <= L ->
+  (forall c, a <= c <= b -> m <= Rabs (f' c)) -> (forall c, a <= c <= b -> Rabs (f' c) <= Mb) ->
+  (forall u v, a <= u <= b -> a <= v <= b -> Rabs (f' u - f' v) <= L * Rabs (u - v)) ->
+  a <= r <= b -> f r = 0 ->
+  forall rho tl dl : R, 0 <= rho -> dl <> 0 -> a <= r - rho - Rabs dl -> r + rho + Rabs dl <= b ->
+  L / m * (rho + Rabs dl) < 1 ->
+  forall (n : nat) (x0 : R), Rabs (x0 - r) <= rho ->
+  exists res evs, newton_sys NRl (mkCfg tl dl n [x0]) (fun p => let* x := rd p 0 in Ok [f x]) = Ok (res, evs).
+Print Assumptions newton_sys1d_basin_no_panic.
+
+Theorem newton_sys1d_basin_ok : forall (f f' : R -> R) (a b m Mb L r : R),
+  (forall c, a <= c <= b -> derivable_pt_lim f c (f' c)) -> 0 < m -> 0 <= L ->
+  (forall c, a <= c <= b -> m <= Rabs (f' c)) -> (forall c, a <= c <= b -> Rabs (f' c) <= Mb) ->
+  (forall u v, a <= u <= b -> a <= v <= b -> Rabs (f' u - f' v) <= L * Rabs (u - v)) ->
+  a <= r <= b -> f r = 0 ->
+  forall rho tl dl : R, 0 <= rho -> dl <> 0 -> a <= r - rho - Rabs dl -> r + rho + Rabs dl <= b ->
+  L / m * (rho + Rabs dl) < 1 ->
+  forall (N n : nat) (x0 : R), Rabs (x0 - r) <= rho ->
+  Mb * ((L / m * (rho + Rabs dl)) ^ N * rho) <= tl -> (N < n)%nat ->
+  exists x evs, newton_sys NRl (mkCfg tl dl n [x0]) (fun p => let* x := rd p 0 in Ok [f x]) = Ok (NOk [x], evs) /\
+    Rabs (x - r) <= rho /\
+    Rabs (x - r) <= L / m * (tl / m * (tl / m + Rabs dl)).
+Proof. exact newton_sys1d_basin_ok_lemma. Qed.
+Check newton_sys1d_basin_ok : forall (f f' : R -> R) (a b m Mb L r : R),
+  (forall c, a <= c <= b -> derivable_pt_lim f c (f' c)) -> 0 < m -> 0 <= L ->
+  (forall c, a <= c <= b -> m <= Rabs (f' c)) -> (forall c, a <= c <= b -> Rabs (f' c) <= Mb) ->
+  (forall u v, a <= u <= b -> a <= v <= b -> Rabs (f' u - f' v) <= L * Rabs (u - v)) ->
+  a <= r <= b -> f r = 0 ->
+  forall rho tl dl : R, 0 <= rho -> dl <> 0 -> a <= r - rho - Rabs dl -> r + rho + Rabs dl <= b ->
+  L / m * (rho + Rabs dl) < 1 ->
+  forall (N n : nat) (x0 : R), Rabs (x0 - r) <= rho ->
+  Mb * ((L / m * (rho + Rabs dl)) ^ N * rho) <= tl -> (N < n)%nat ->
+  exists x evs, newton_sys NRl (mkCfg tl dl n [x0]) (fun p => let* x := rd p 0 in Ok [f x]) = Ok (NOk [x], evs) /\
+    Rabs (x - r) <= rho /\
+    Rabs (x - r) <= L / m * (tl / m * (tl / m + Rabs dl)).
+Print Assumptions newton_sys1d_basin_ok.
+
+(* x^3 - 2 again (hypotheses on f: newton_ok_near_root_general_nonvacuous; basin: newton_basin_nonvacuous) with
+   tol = 2: Mb q^0 rho = 12/10 <= 2 *)
+Example newton_sys1d_basin_nonvacuous :
+  12 * ((12 / 3 * (1 / 10 + Rabs (1 / 10))) ^ 0 * (1 / 10)) <= 2 /\ (0 < 1)%nat.
+Proof. split; [cbn [pow]; lra|auto]. Qed.
 Local Close Scope R_scope.
+
+(* the scalar solve on an affine function over any field: exact root -b/a within two passes, at most six calls.
+   The hypothesis on divr says that "element / real" undoes the multiplication by 2 delta (f64 / f64, Complex / f64). *)
+Theorem newton_scalar_affine_exact : forall (O : NOps) (FL : FieldLaws (NA O)) (a b : NA O) (tl dl : NR O),
+  a <> zero ->
+  (forall z : NA O, divr O (mul z (add (emb O dl) (emb O dl))) (mul (two O) dl) = Ok z) ->
+  leb (mag O zero) tl = true ->
+  forall n x0, 2 <= n ->
+  exists evs, newton_scalar O (mkCfg tl dl n x0) (fun x => Ok (add (mul a x) b)) =
+                Ok (NOk (neg (mul b (fl_inv (NA O) FL a))), evs) /\ length evs <= 6.
+Proof. exact Newton2Cplx.newton_scalar_affine_lemma. Qed.
+Check newton_scalar_affine_exact : forall (O : NOps) (FL : FieldLaws (NA O)) (a b : NA O) (tl dl : NR O),
+  a <> zero ->
+  (forall z : NA O, divr O (mul z (add (emb O dl) (emb O dl))) (mul (two O) dl) = Ok z) ->
+  leb (mag O zero) tl = true ->
+  forall n x0, 2 <= n ->
+  exists evs, newton_scalar O (mkCfg tl dl n x0) (fun x => Ok (add (mul a x) b)) =
+                Ok (NOk (neg (mul b (fl_inv (NA O) FL a))), evs) /\ length evs <= 6.
+Print Assumptions newton_scalar_affine_exact.
+
+(* Newton<Cmplx>::solve on a z + b *)
+Theorem newton_affine_exact_C : forall (a b : SolveC.ACR) (tl dl : R) (n : nat) (x0 : SolveC.ACR),
+  a <> zero -> dl <> 0%R -> (0 <= tl)%R -> 2 <= n ->
+  exists evs, newton_scalar Newton2Inst.NCR (mkCfg tl dl n x0) (fun z => Ok (add (mul a z) b)) =
+                Ok (NOk (neg (mul b (SolveC.C_inv a))), evs) /\
+              add (mul a (neg (mul b (SolveC.C_inv a)))) b = zero /\ length evs <= 6.
+Proof. exact Newton2Cplx.newton_affine_exact_C_lemma. Qed.
+Check newton_affine_exact_C : forall (a b : SolveC.ACR) (tl dl : R) (n : nat) (x0 : SolveC.ACR),
+  a <> zero -> dl <> 0%R -> (0 <= tl)%R -> 2 <= n ->
+  exists evs, newton_scalar Newton2Inst.NCR (mkCfg tl dl n x0) (fun z => Ok (add (mul a z) b)) =
+                Ok (NOk (neg (mul b (SolveC.C_inv a))), evs) /\
+              add (mul a (neg (mul b (SolveC.C_inv a)))) b = zero /\ length evs <= 6.
+Print Assumptions newton_affine_exact_C.
+
+(* a = i is a nonzero slope; and the divr hypothesis of newton_scalar_affine_exact holds at C for delta = 1/8 *)
+Example newton_affine_exact_C_nonvacuous :
+  Complex.mkC (A:=SolveR.AR) 0%R 1%R <> (zero : SolveC.ACR) /\
+  (forall z : SolveC.ACR,
+     divr Newton2Inst.NCR (mul z (add (emb Newton2Inst.NCR (1 / 8)%R) (emb Newton2Inst.NCR (1 / 8)%R)))
+          (mul (two Newton2Inst.NCR) (1 / 8)%R) = Ok z).
+Proof. split; [exact Newton2Cplx.i_nonzero|]. apply Newton2Cplx.NCR_divr. lra. Qed.
+
+(* sharpness of 2 <= max_iter: with one pass the value is the exact root, the verdict depends on the residual of the guess *)
+Theorem newton_sys_affine_one_pass : forall (O : NOps), FieldLaws (NA O) -> PivLaws (NA O) ->
+  forall (M : matrix (NA O)) (c0 : list (NA O)) (tl dl : NR O),
+  wf M -> rows M = cols M -> 1 <= rows M -> emb O dl <> zero ->
+  ltb (mag O zero) (mag O zero) = false -> leb (mag O zero) tl = true ->
+  (exists N : nat -> nat -> NA O, left_inverse (rows M) N (ent M)) ->
+  forall x0, length x0 = cols M ->
+  exists x evs mr, norm_inf O (aff O M c0 x0) = Ok mr /\ is_root O M c0 x /\
+    newton_sys O (mkCfg tl dl 1 x0) (fun p => Ok (aff O M c0 p)) = Ok ((if leb mr tl then NOk x else NErr x), evs).
+Proof. exact newton_sys_affine_one_pass_lemma. Qed.
+Check newton_sys_affine_one_pass : forall (O : NOps), FieldLaws (NA O) -> PivLaws (NA O) ->
+  forall (M : matrix (NA O)) (c0 : list (NA O)) (tl dl : NR O),
+  wf M -> rows M = cols M -> 1 <= rows M -> emb O dl <> zero ->
+  ltb (mag O zero) (mag O zero) = false -> leb (mag O zero) tl = true ->
+  (exists N : nat -> nat -> NA O, left_inverse (rows M) N (ent M)) ->
+  forall x0, length x0 = cols M ->
+  exists x evs mr, norm_inf O (aff O M c0 x0) = Ok mr /\ is_root O M c0 x /\
+    newton_sys O (mkCfg tl dl 1 x0) (fun p => Ok (aff O M c0 p)) = Ok ((if leb mr tl then NOk x else NErr x), evs).
+Print Assumptions newton_sys_affine_one_pass.
+(* non-vacuity: newton_sys_affine_hyps_nonvacuous; on that system from (0,0) the residual norm 5 exceeds tol = 1/1000:
+   the real code answers Err (4/5, 7/5) for max_iter = 1 (observed through the executor) *)
+
+(* sharpness of 1 <= rows M: a 0-dimensional system panics in the residual norm (Vector::norm_inf reads vec[0]) *)
+Theorem newton_sys_empty_panics : forall (O : NOps) (tl dl : NR O) (n : nat) (f : list (NA O) -> res (list (NA O))),
+  f [] = Ok [] -> newton_sys O (mkCfg tl dl (S n) []) f = Panic Index.
+Proof. exact newton_sys_empty_panics_lemma. Qed.
+Check newton_sys_empty_panics : forall (O : NOps) (tl dl : NR O) (n : nat) (f : list (NA O) -> res (list (NA O))),
+  f [] = Ok [] -> newton_sys O (mkCfg tl dl (S n) []) f = Panic Index.
+Print Assumptions newton_sys_empty_panics.
+
+Theorem newton_sysjac_empty_panics : forall (O : NOps) (tl dl : NR O) (n : nat) (f : list (NA O) -> res (list (NA O))) jac,
+  f [] = Ok [] -> newton_sysjac O (mkCfg tl dl (S n) []) f jac = Panic Index.
+Proof. exact newton_sysjac_empty_panics_lemma. Qed.
+Check newton_sysjac_empty_panics : forall (O : NOps) (tl dl : NR O) (n : nat) (f : list (NA O) -> res (list (NA O))) jac,
+  f [] = Ok [] -> newton_sysjac O (mkCfg tl dl (S n) []) f jac = Panic Index.
+Print Assumptions newton_sysjac_empty_panics.
+
+Example newton_sys_empty_panics_nonvacuous : (fun p : list AQ => Ok p) [] = Ok [].
+Proof. reflexivity. Qed.
 (* ======================================================================================
    C18, round two (package newton2) -- to be appended at the END of Props/C18.v.
    The O(delta) claim, over the reals (NRl = the real instance of Proofs/NewtonReal.v): whatever matrix
